@@ -350,6 +350,12 @@ func TestC14Ladder(t *testing.T) {
 				}
 			}
 		}
+		// the same amount in the containers inflaters are often lenient about (RFC 1950 zlib, gzip) on the SAML endpoints themselves
+		for _, ep := range []string{"sso-query", "sso-form", "slo-form", "slo-query"} {
+			for _, cont := range []string{"zlib", "gzip"} {
+				cases = append(cases, C14Case{Endpoint: ep, SizeMiB: 64, Placement: "comment", Pad: "A", Valid: true, Container: cont, Best: true})
+			}
+		}
 		// the message parameter many times over, each occurrence below any cap on one value
 		for _, ep := range []string{"sso-query", "sso-form", "slo-form", "slo-query"} {
 			for _, size := range []int{8, 9} {
